@@ -331,6 +331,8 @@ class Contract:
         self.inline = getattr(cls, "inline", False)
         self.trusted = getattr(cls, "trusted", False)       # contract assumed, body not verified
         self.helpers = dict(getattr(cls, "helpers", {}))
+        self.native_helpers = dict(self.helpers)
+        self.native_helpers.update(getattr(cls, "native_helpers", {}) or {})
         self.native = getattr(cls, "native", None)          # optional native clause evaluators
         self.call_ensures = getattr(cls, "call_ensures", None)   # ensures used at call sites (default: all)
         self.doc = (cls.__doc__ or "").strip()
@@ -352,6 +354,32 @@ class Contract:
                 raise CheckerFault(f"called({key!r}, {n}): no such modular call on this path")
             return hits[n]
         vars["called"] = called
+
+        def called_args(key, n=0):
+            hits = [b for (k, b, r) in interp.call_log if k == key or k.endswith(key)]
+            if len(hits) <= n:
+                raise CheckerFault(f"called_args({key!r}, {n}): no such modular call on this path")
+            return hits[n]
+        vars["called_args"] = called_args
+        from . import stubs as _S
+
+        def fft_arg(res, op=None):
+            """ghost: the array that was transformed to obtain `res` (and, with op, a check of which transform)"""
+            for (o, r, a, s_) in _S.GHOST["fft"]:
+                if r is res and (op is None or o == op):
+                    return A.from_nested(a)
+            return fresh_array("no_such_transform", 3, "real")     # unconstrained: clauses about it cannot be proved
+
+        def fft_of(x, op):
+            """ghost: the result of applying transform `op` to exactly the array `x` on this path"""
+            for (o, r, a, s_) in _S.GHOST["fft"]:
+                if a is x and o == op:
+                    return r
+            return fresh_array("no_such_transform", 3, "real")
+
+        def made_by(res, op):
+            return any(r is res and o == op for (o, r, a, s_) in _S.GHOST["fft"])
+        vars.update(fft_arg=fft_arg, fft_of=fft_of, made_by=made_by)
         vars.update(self.helpers)
         vars.update(bound)
         if extra:
@@ -390,6 +418,18 @@ class Contract:
         names = self.call_ensures if self.call_ensures is not None else list(self.ensures)
         for n in names:
             if isinstance(self.ensures[n], dict):
+                # structured clause at a call site: forall vars. assume => show   (a quantified hypothesis)
+                spec = self.ensures[n]
+                consts, extra = [], {"result": res}
+                for v, kind in spec.get("vars", {}).items():
+                    c = z3.Real(V.fresh_name("cv_" + v)) if kind == "real" else z3.Int(V.fresh_name("cv_" + v))
+                    consts.append(c)
+                    extra[v] = Sym(c)
+                a = self.eval_clause(interp, spec["assume"], bound, extra) if spec.get("assume") else True
+                sh = self.eval_clause(interp, spec["show"], bound, extra)
+                body = V.implies(a, sh)
+                bt = V._bool_term(body) if is_sym(body) else z3.BoolVal(bool(body))
+                path.conds.append(z3.ForAll(consts, bt) if consts else bt)
                 continue
             path.assume(self.eval_clause(interp, self.ensures[n], bound, {"result": res}))
         interp.call_log.append((self.key, bound, res))
